@@ -296,6 +296,17 @@ def loop_shape(db, rep, f):
     else:
         condn = loop["c"][0] if len(loop["c"]) == 2 else loop["c"][1]
     atoms = cond.facts_of(f, condn, True)
+    # an "ended" flag: a boolean local that the loop body sets from `<capture call> < 0` and the loop condition tests negated;
+    # the null packet is then returned after the loop under that flag
+    ended = None
+    for a_ in facts.walk([x for x in loop["c"] if x is not None][0] if loop["k"] == "DoStmt" else loop["c"][-1]):
+        if a_["k"] == "BinaryOperator" and a_.get("op") == "=" and facts.strip_all(a_["c"][0])["k"] == "DeclRefExpr":
+            rv = facts.strip_all(a_["c"][1])
+            if rv["k"] == "BinaryOperator" and rv.get("op") == "<" and facts.cval(rv["c"][1]) == 0 and \
+                    any(y["k"] in ("CallExpr", "CXXMemberCallExpr") and not y.get("callee") for y in facts.walk(rv["c"][0])):
+                ended = facts.strip_all(a_["c"][0]).get("var")
+    if ended is not None:
+        atoms = [(op, l, r) for op, l, r in atoms if not (op == "false" and facts.strip_all(l).get("var") == ended)]
     has_pdu0 = any(op == "==" and "pdu" in facts.expr_str(l) and facts.cval(r) == 0 for op, l, r in atoms if r is not None) or \
         any(op == "false" and "pdu" in facts.expr_str(l) for op, l, r in atoms)
     has_proc = any(op == "true" and "packet_processed" in facts.expr_str(l) for op, l, r in atoms)
@@ -330,6 +341,19 @@ def loop_shape(db, rep, f):
                         for x in facts.walk(r_):
                             if x["k"] in ("CXXConstructExpr", "CXXTemporaryObjectExpr") and x.get("c") and facts.cval(x["c"][0]) == 0:
                                 ok = True
+    if not ok and ended is not None:
+        # flag form: `while (!ended && ...) { ended = call(...) < 0; }  if (ended) return PtrPacket(0, ...);`
+        in_cond = any(op == "false" and facts.strip_all(l).get("var") == ended for op, l, r in cond.facts_of(f, condn, True))
+        for n in facts.fn_nodes(f):
+            if n["k"] == "IfStmt" and not any(y is n for y in facts.walk(loop)) and (n.get("l") or 0) >= (loop.get("l") or 0):
+                conds = [c_ for c_ in n["c"] if c_ is not None and c_["k"] not in ("CompoundStmt", "ReturnStmt")]
+                at = cond.facts_of(f, conds[0], True) if conds else []
+                if in_cond and any(op == "true" and facts.strip_all(l).get("var") == ended for op, l, r in at):
+                    for r_ in facts.walk(n):
+                        if r_["k"] == "ReturnStmt":
+                            for x in facts.walk(r_):
+                                if x["k"] in ("CXXConstructExpr", "CXXTemporaryObjectExpr") and x.get("c") and facts.cval(x["c"][0]) == 0:
+                                    ok = True
     if ok:
         rep.ok("R4-loop-shape", "next_packet:negative-result", facts.loc(f, loop), "negative pcap result returns PtrPacket(0, ...)")
     else:
